@@ -61,13 +61,18 @@ let run_crash (toks : string list) : string =
         | Storage.Rename (a, b) -> "Rename:" ^ hx a ^ ":" ^ hx b
         | Storage.Remove n -> "Remove:" ^ hx n) (Storage.set_ops true nm (unhex v)))
   | "crashdb" :: olds :: sets :: i :: _ ->
-    (* SaveEntity name pub: file = entity_key name; the observable is the public key *)
+    (* SaveEntity name pub: file = entity_key name; the observable is the public key; <name>:DEL = the entity is deleted *)
     let parse s = if s = "-" then [] else L.map (fun kv -> match split_on ':' kv with
         | [k; v] -> (unhex k, unhex v) | _ -> failwith "bad kv") (split_on ',' s) in
-    let olds = parse olds and sets = parse sets in
+    let parsew s = if s = "-" then [] else L.map (fun kv -> match split_on ':' kv with
+        | [k; "DEL"] -> Storage.WDelete (Storage.entity_key (unhex k))
+        | [k; v] -> Storage.WSet (Storage.entity_key (unhex k), unhex v) | _ -> failwith "bad kv") (split_on ',' s) in
+    let olds = parse olds in
+    let wsets = parsew sets in
+    let sets = if sets = "-" then [] else L.map (fun kv -> match split_on ':' kv with [k; _] -> (unhex k, []) | _ -> failwith "bad kv") (split_on ',' sets) in
     let ek (k, v) = (Storage.entity_key k, v) in
     let d0 = L.fold_left (fun d (k, v) -> Storage.st_set true d k v) [] (L.map ek olds) in
-    let ops = Storage.multi_ops (L.map ek sets) in
+    let ops = Storage.writes_ops wsets in
     let rec firstn k l = if k = 0 then [] else match l with [] -> [] | x :: r -> x :: firstn (k-1) r in
     let d' = Storage.apply_ops d0 (firstn (int_of_string i) ops) in
     let names = L.sort_uniq compare (L.map (fun (k, _) -> hx k) (olds @ sets)) in
@@ -78,10 +83,15 @@ let run_crash (toks : string list) : string =
   | "crash" :: olds :: sets :: i :: rest ->
     let parse s = if s = "-" then [] else L.map (fun kv -> match split_on ':' kv with
         | [k; v] -> (unhex k, unhex v) | _ -> failwith "bad kv") (split_on ',' s) in
-    let olds = parse olds and sets = parse sets in
+    let parsew s = if s = "-" then [] else L.map (fun kv -> match split_on ':' kv with
+        | [k; "DEL"] -> Storage.WDelete (unhex k)
+        | [k; v] -> Storage.WSet (unhex k, unhex v) | _ -> failwith "bad kv") (split_on ',' s) in
+    let olds = parse olds in
+    let wsets = parsew sets in
+    let sets = L.map (fun w -> match w with Storage.WSet (k, v) -> (k, v) | Storage.WDelete k -> (k, [])) wsets in
     let thens = (match rest with [_; t] -> parse t | _ -> []) in
     let d0 = L.fold_left (fun d (k, v) -> Storage.st_set true d k v) [] olds in
-    let ops = Storage.multi_ops sets in
+    let ops = Storage.writes_ops wsets in
     let rec firstn k l = if k = 0 then [] else match l with [] -> [] | x :: r -> x :: firstn (k-1) r in
     let d' = Storage.apply_ops d0 (firstn (int_of_string i) ops) in
     let d' = L.fold_left (fun d (k, v) -> Storage.st_set true d k v) d' thens in
